@@ -1318,6 +1318,21 @@ fn c16(ctx: &CaseCtx, obs: &CaseObs, full: &Outcome, exp: Option<&Expect>, l: &m
     if exp.end != Some(n.end) || full.end != exp.end {
         return;
     }
+    // identity: the getter hands out the very nodes that the accessors reach inside the content
+    if n.walk_events > 0 {
+        for g in &n.getters {
+            let stored: Vec<usize> = n.walk_addrs.iter().filter(|(name, _)| *name == g.name).map(|(_, a)| *a).collect();
+            let handed: Vec<usize> = g.leaves.iter().map(|x| x.addr).collect();
+            l.count("getter_identity_checks");
+            if stored.len() == handed.len() && stored != handed {
+                l.violation(
+                    "unclassified/C16/identity",
+                    format!("getter {}() returns nodes that are not (in this order) the {} nodes stored in the rule's content", g.name, g.name),
+                    ctx.witness(json!({"getter": g.name, "positions_equal": stored.iter().zip(handed.iter()).map(|(a, b)| a == b).collect::<Vec<_>>() })),
+                );
+            }
+        }
+    }
     let bad = c16_compare(ctx, n, full, l, true);
     if bad.is_empty() {
         return;
